@@ -2260,6 +2260,7 @@ func (self *LockDB) Lock(serverProtocol ServerProtocol, command *protocol.LockCo
 			isRequireAof := (lockManager.currentLock != nil && lockManager.currentLock.isAof) || (lockManager.currentData != nil && lockManager.currentData.isAof)
 			lockManager.ProcessLockData(command, lock, false)
 			if isRequireAof && lockManager.currentData != nil && !lockManager.currentData.isAof {
+				command.TimeoutFlag &= ^uint16(protocol.TIMEOUT_FLAG_REQUIRE_ACKED)
 				_ = lockManager.PushLockAof(lock, 0)
 			}
 		}
@@ -2686,6 +2687,7 @@ func (self *LockDB) wakeUpWaitLock(lockManager *LockManager, waitLock *Lock, ser
 		isRequireAof := (lockManager.currentLock != nil && lockManager.currentLock.isAof) || (lockManager.currentData != nil && lockManager.currentData.isAof)
 		lockManager.ProcessLockData(waitLock.command, waitLock, false)
 		if isRequireAof && lockManager.currentData != nil && !lockManager.currentData.isAof {
+			waitLock.command.TimeoutFlag &= ^uint16(protocol.TIMEOUT_FLAG_REQUIRE_ACKED)
 			_ = lockManager.PushLockAof(waitLock, 0)
 		}
 	}
